@@ -348,6 +348,70 @@ impl PhysicalPlanner {
         }
     }
 
+    /// Widen equi-join key pairs whose sides are integers of DIFFERENT
+    /// widths to Int64 on both sides. The join's hash tables (direct-address,
+    /// vectorized, raw-i64) are built from the build side's key arrays and
+    /// probed with the probe side's as they are; an Int32 probe key against
+    /// an Int64 build key indexed the direct-address table with hash buckets
+    /// (out-of-bounds panic) or simply never matched.
+    fn coerce_join_key_widths(
+        on: Vec<(Expr, Expr)>,
+        left: &Schema,
+        right: &Schema,
+    ) -> Vec<(Expr, Expr)> {
+        use arrow::datatypes::DataType as T;
+        let ls = PlanSchema::from_qualified_arrow(left);
+        let rs = PlanSchema::from_qualified_arrow(right);
+        let is_int = |t: &T| {
+            matches!(
+                t,
+                T::Int8 | T::Int16 | T::Int32 | T::Int64 | T::UInt8 | T::UInt16 | T::UInt32
+            )
+        };
+        let widen = |e: Expr, t: &T| {
+            if *t == T::Int64 {
+                e
+            } else {
+                Expr::Cast {
+                    expr: Box::new(e),
+                    data_type: T::Int64,
+                }
+            }
+        };
+        // Physical field names may be qualified differently from the
+        // logical column ("a.k0" vs "k0"): fall back to the name resolution
+        // the expression evaluator itself uses.
+        let key_type = |e: &Expr, ps: &PlanSchema, phys: &Schema| -> Option<T> {
+            if let Ok(t) = e.data_type(ps) {
+                return Some(t);
+            }
+            if let Expr::Column(c) = e {
+                if let Some(rel) = &c.relation {
+                    if let Ok(f) = phys.field_with_name(&format!("{rel}.{}", c.name)) {
+                        return Some(f.data_type().clone());
+                    }
+                }
+                if let Ok(f) = phys.field_with_name(&c.name) {
+                    return Some(f.data_type().clone());
+                }
+                let suffix = format!(".{}", c.name);
+                let mut hits = phys.fields().iter().filter(|f| f.name().ends_with(&suffix));
+                if let (Some(f), None) = (hits.next(), hits.next()) {
+                    return Some(f.data_type().clone());
+                }
+            }
+            None
+        };
+        on.into_iter()
+            .map(|(l, r)| match (key_type(&l, &ls, left).ok_or(()), key_type(&r, &rs, right).ok_or(())) {
+                (Ok(lt), Ok(rt)) if lt != rt && is_int(&lt) && is_int(&rt) => {
+                    (widen(l, &lt), widen(r, &rt))
+                }
+                _ => (l, r),
+            })
+            .collect()
+    }
+
     /// Should the fused streaming aggregate hash-partition its input to
     /// per-worker channels (disjoint states)?
     ///
@@ -1363,6 +1427,11 @@ impl PhysicalPlanner {
 
                 let left = self.create_physical_plan_inner(left_plan)?;
                 let right = self.create_physical_plan_inner(right_plan)?;
+
+                // INTEGER = BIGINT (and the like) must hash and compare as one
+                // type on both sides of the join: the hash tables are typed by
+                // the build side's key arrays.
+                let on = Self::coerce_join_key_widths(on, &left.schema(), &right.schema());
 
                 // For Semi/Anti joins, the filter must be evaluated inside the join
                 // because the output doesn't include right-side columns
